@@ -76,12 +76,12 @@ PROPS = {
         assumptions=['time is a monotone explicit parameter; the real code reads Instant::now() up to three times within one call (identical under the fake clock)', 'heap reclamation is observed through a counting allocator, not proved'],
     ),
     'C16': dict(
-        lean='CoapLite.Props.C16', domains=['LF'], line_filter=r'LF (write|rt) ',
+        lean='CoapLite.Props.C16', domains=['LF'], line_filter=r'LF (write|writenf|rt) ',
         rule='documents: every attribute value of length <= 3 (4 thorough) over 12 structural/multi-byte characters through attr and attr_quoted + a u32 attribute; 3000 (20000) random documents of 0..4 links x 0..4 attributes with values up to length 8 over 19 characters incl. 4-byte code points, all writer methods, newline on/off; directed 0..4 x 0..4 grid. Non-trivial = every written document; distinct = distinct lines.',
         explanation='parse(write d) = d proved for all well-formed documents',
     ),
     'C17': dict(
-        lean='CoapLite.Props.C17', domains=['LF'], line_filter=r'LF (parse|cow) ',
+        lean='CoapLite.Props.C17', domains=['LF'], line_filter=r'LF (parse|cow|cowk) ',
         rule='link parser on every string of length <= 5 (7 thorough) over {< > ; , " \\ = space a e-acute} + 60000 random of length 6..8; both unquoting paths on every string of length <= 6 (7) over {" \\ a e-acute ;}; 20000 (100000) random strings up to length 40 over 19 characters incl. 4-byte code points; every prefix of 300 (2000) written documents. Offsets of all yielded slices compared. Non-trivial = at least one link parsed / quoted value.',
         explanation='slices, order, fusedness, termination and cow = string proved for every input',
     ),
